@@ -531,7 +531,13 @@ func rulesDo() {
 		"positional count 0..required+optional+2 x a fixed family of keyword tails. Non-trivial A: at least 2 lambda list sections and the call uses a default, supplies keys out of " +
 		"declaration order, or must be rejected. B (built-ins): every function of every linked package x every argument count 0..documented max+2 (min+3 when unbounded; with &key: the positional " +
 		"counts, a keyword without value, then 1, 2 and all documented keys), really called in a child process with a neutral sample per documented argument type; count inside the documented " +
-		"range -> the outcome is not the function's own argument count error; outside -> the outcome is not a normal return. Non-trivial B: count in {min-1, min, max, max+1}. Distinct by the JSON of the case.")
+		"range -> the outcome is not the function's own argument count error; outside -> the outcome is not a normal return. Non-trivial B: count in {min-1, min, max, max+1}. " +
+		"R (redefinition): one name is defined 2-3 times with different lambda lists (drawn as in A, or the previous one with one required parameter more or less); functions holding a compiled " +
+		"call of the name are defined before the name (forward reference, optionally called once before it exists) or after its first definition; after every definition 3-4 argument vectors " +
+		"(drawn for each of the lambda lists) are passed through 5 call forms (direct, funcall 'name, funcall #'name, apply 'name, the compiled caller) in a rotated order; the reference binder is " +
+		"applied to the lambda list current at the call and the body marks the index of its definition. Grid: 132 ordered pairs of {0-2 required x 0-1 optional x 0-1 key} x 3 caller modes x 2 " +
+		"rotations x 7 vectors. Non-trivial R: a redefinition changes the number of required parameters and some vector is valid under one list and must be rejected under the other. " +
+		"Distinct by the JSON of the case.")
 	h.Assume("the reference binder (harness/c04/binder_test.go, about 150 lines, independent of slip)")
 	h.Assume("vt:mark (Go side trace) shows whether the body ran; results are compared through internal/sx")
 	h.Assume("FuncDoc.Args of a FuncInfo is the function's documented lambda list (it is what describe prints)")
